@@ -984,6 +984,18 @@ func (x *Exec) specCall(env *SpecEnv, n *ECall) TV {
 		return mkSpecInt(BV2Nat(ni.t))
 	case "Z": // value as Int respecting signedness
 		return mkSpecInt(x.toMathInt(arg(0)))
+	case "gf": // ghost field of an object: gf(ptr, name) : int
+		a := arg(0)
+		p, ok := a.V.(*PtrV)
+		if !ok {
+			specFail("gf() needs a pointer")
+		}
+		id, ok := n.Args[1].(*EIdent)
+		if !ok {
+			specFail("gf(ptr, fieldname)")
+		}
+		arr := x.heapArr(st, "GF:"+id.Name, SInt, SBV64)
+		return TV{Select(arr, p.Ref), types.Typ[types.Int]}
 	case "val": // *big.Int value
 		a := arg(0)
 		p, ok := a.V.(*PtrV)
@@ -1262,6 +1274,14 @@ func (x *Exec) specMethodCall(env *SpecEnv, sel *ESel, args []Expr) TV {
 		_, bound := env.names[id.Name]
 		_, lz := env.lazy[id.Name]
 		if !bound && !lz {
+			// pkg.specfunc(args): spec functions are global by name
+			if sf, ok := x.CS.Specs[mname]; ok && res == "" {
+				for _, imp := range env.typesPkg().Imports() {
+					if imp.Name() == id.Name && (sf.Pkg == imp.Path() || sf.Pkg == "") {
+						return x.applySpecFunc(env, sf, args)
+					}
+				}
+			}
 			for _, imp := range env.typesPkg().Imports() {
 				if imp.Name() == id.Name {
 					if sp := x.P.Package(imp.Path()); sp != nil {
